@@ -13,7 +13,7 @@ FUNCS = ['pyg_base._pandas:df_index', 'pyg_base._pandas:_df_index', 'pyg_base._p
          'pyg_base._reducer:reducing.wrapped', 'pyg_base._reducer:reducer']
 BOUNDS = dict(frames = 'lists of two frames of 2..3 columns and 0..1 rows (thorough 2) plus a string, every column policy ij / oj / lj / rj and index policy', collections = '2..3 Series of 0..2 rows (thorough 3) with symbolic stamps in a common 7-day window and symbolic values incl. NaN, inside a list, a dict, or a dict holding a nested list, '
                             'mixed with a scalar, a string and None', policies = 'join in {ij, oj, lj, rj, explicit index}, fill method in {None, ffill, bfill}',
-              arrays = 'collections of 2..3 bare arrays of symbolic lengths 0..3 with symbolic cells, every join policy')
+              arrays = 'collections of 2..3 bare arrays of symbolic lengths 0..3 with symbolic cells, every join policy; pairs of 2-d arrays (0..2 rows x 2 columns)')
 OUTSIDE = ['frames with more than 3 columns or more than 2 rows, single-column frames, frames with repeated column names', 'tz-aware indices', 'more than 3 rows']
 ASSUMPTIONS = ['pandas replaced by the minipd model, validated against the real pandas each run (intersection / union, reindex with method and limit as an as-of join on a sorted index, masks)']
 
@@ -111,6 +111,26 @@ def h_arrays(join, k):
             c.check('arrays-are-aligned-at-the-end', len(got) == n and all(feq(g, w) for g, w in zip(got, want)))
     return h
 
+def h_arrays2d(join):
+    """two bare 2-d arrays (rows x 2 columns): rows are aligned at the end, the columns stay as they are"""
+    def h(c):
+        Pm = P()
+        lens = [c.choice('len%d' % i, 3) for i in range(2)]
+        arrs = []; cells = []
+        for i in range(2):
+            rows_ = [[c.float('a%d.%d.%d' % (i, j, k), allow = (core.FIN,), halves = 12) for k in range(2)] for j in range(lens[i])]
+            cells.append(rows_)
+            arrs.append(minipd.Arr2(rows_, 2) if c.mode == 'sym' else __import__('numpy').array([[float(v) for v in r] for r in rows_], dtype = float).reshape(lens[i], 2))
+        n = min(lens) if join == 'ij' else max(lens) if join == 'oj' else lens[0] if join == 'lj' else lens[-1]
+        c.cover('different-lengths', lens[0] != lens[1])
+        r = Pm.df_sync(list(arrs), join = join)
+        for i in range(2):
+            got = r[i].tolist(); vs = cells[i]
+            want = vs[len(vs) - n:] if len(vs) >= n else [[float('nan')] * 2] * (n - len(vs)) + vs
+            c.check('2-d-arrays-keep-their-columns', tuple(r[i].shape) == (n, 2))
+            c.check('2-d-arrays-are-aligned-at-the-end', len(got) == n and all(len(g) == 2 and feq(g[0], w[0]) and feq(g[1], w[1]) for g, w in zip(got, want)))
+    return h
+
 # ---------------------------------------------------------------- multi-column frames: common column set
 from .c08 import frame, frame_cells, COLSETS
 
@@ -206,4 +226,5 @@ def obligations(tier):
             obs.append(Ob('presync.%s.%dx%d' % (join, na, nb), h_presync(join, na, nb), setup = S, budget_s = 300, desc = 'a presync-decorated function sees its (nested) timeseries arguments on the common index, join %s' % join))
         for k in (2, 3):
             obs.append(Ob('arrays.%s.%d' % (join, k), h_arrays(join, k), setup = S, budget_s = 300, desc = '%d bare arrays of lengths 0..3 are aligned at the end (join %s)' % (k, join)))
+        obs.append(Ob('arrays2d.%s' % join, h_arrays2d(join), setup = S, budget_s = 300, desc = 'two bare 2-d arrays (0..2 rows x 2 columns) are aligned at the end and keep their columns (join %s)' % join))
     return obs
